@@ -24,6 +24,7 @@ type Entry struct {
 	Pkg      string   `json:"pkg"`   // package dir relative to /repo, e.g. ./cache/disk
 	Func     string   `json:"func"`  // harness entry point
 	Files    []string `json:"files"` // harness files (relative to /verif/harness/<pkg>)
+	Extra    []string `json:"extra,omitempty"` // further overlay files, relative to /verif/harness
 	Tier     string   `json:"tier"`  // "quick" (also run in thorough) or "thorough"
 	Native   bool     `json:"native"`
 	Unwind   int      `json:"unwind,omitempty"`
@@ -169,6 +170,9 @@ func buildOverlay(entries []Entry) (map[string][]byte, []string) {
 		}
 		for _, f := range e.Files {
 			add(filepath.Join(hdir, rel, f), filepath.Join(repoDir, rel, f))
+		}
+		for _, f := range e.Extra {
+			add(filepath.Join(hdir, f), filepath.Join(repoDir, f))
 		}
 	}
 	var ps []string
@@ -320,6 +324,9 @@ func cmdCheck(args []string) {
 				continue
 			}
 			if !v.Reproduced {
+				if os.Getenv("GOSMX_DEBUG_UNREPRO") != "" {
+					fmt.Println("UNREPRODUCED replay:", writeReplay(*prop, e, v))
+				}
 				inconcl = append(inconcl, fmt.Sprintf("%s: counterexample for %q did not reproduce in concrete re-execution (encoding problem)", e.Func, v.Label))
 				continue
 			}
@@ -379,12 +386,15 @@ type replayFile struct {
 	Pkg      string           `json:"pkg"`
 	Func     string           `json:"func"`
 	Files    []string         `json:"files"`
+	Extra    []string         `json:"extra,omitempty"`
 	Label    string           `json:"label"`
 	Kind     string           `json:"kind"`
 	Vars     map[string]int64 `json:"vars"`
 	Choices  []int64          `json:"choices"`
 	Facts    map[string]string `json:"facts,omitempty"`
 	Native   bool             `json:"native"`
+	Trace    []int64          `json:"trace"`
+	Oracle   []int64          `json:"oracle"`
 }
 
 func writeReplay(prop string, e Entry, v *sx.Violation) string {
@@ -392,7 +402,7 @@ func writeReplay(prop string, e Entry, v *sx.Violation) string {
 	os.MkdirAll(dir, 0755)
 	h := sha1.Sum([]byte(v.Label))
 	p := filepath.Join(dir, fmt.Sprintf("%s-%x.json", e.Func, h[:4]))
-	b, _ := json.MarshalIndent(replayFile{prop, e.Pkg, e.Func, e.Files, v.Label, v.Kind, v.Vars, v.Choices, v.Facts, e.Native}, "", " ")
+	b, _ := json.MarshalIndent(replayFile{prop, e.Pkg, e.Func, e.Files, e.Extra, v.Label, v.Kind, v.Vars, v.Choices, v.Facts, e.Native, v.Trace, v.Oracle}, "", " ")
 	os.WriteFile(p, b, 0644)
 	return p
 }
@@ -490,14 +500,19 @@ func cmdReplay(args []string) {
 	if err := json.Unmarshal(b, &rf); err != nil {
 		die(2, "%v", err)
 	}
-	e := Entry{Pkg: rf.Pkg, Func: rf.Func, Files: rf.Files, Native: rf.Native}
+	e := Entry{Pkg: rf.Pkg, Func: rf.Func, Files: rf.Files, Extra: rf.Extra, Native: rf.Native}
 	ov, pkgPaths := buildOverlay([]Entry{e})
 	prog, pkgs, _ := loadProgram(ov, pkgPaths)
 	fn := pkgs[e.Pkg].Func(e.Func)
 	if fn == nil {
 		die(2, "harness not found")
 	}
-	failed := sx.ReplayConcrete(prog, fn, rf.Vars, rf.Choices)
+	if os.Getenv("GOSMX_BRANCHLOG") != "" {
+		fmt.Fprintln(os.Stderr, "==== symbolic run of the recorded path")
+		sx.ReplaySymbolic(prog, fn, rf.Trace, filepath.Join(verifDir, ".work"))
+		fmt.Fprintln(os.Stderr, "==== concrete run")
+	}
+	failed := sx.ReplayConcrete(prog, fn, rf.Vars, rf.Choices, rf.Oracle)
 	fmt.Printf("engine concrete re-execution of %s: failed obligations: %q\n", rf.Func, failed)
 	ok := false
 	for _, l := range failed {
